@@ -57,6 +57,7 @@ type Result struct {
 	DCAt     int
 	// copy accounting (C12): running total after each copy lies in [TotLo, TotHi]
 	TotLo, TotHi int64
+	CopyTotals   [][2]int64 // [lo,hi] running total after each copy evaluated
 	// LimitWindow: the reference cannot decide whether the limit trips (total
 	// range straddles the limit); failure with CopyLimit and success both accepted.
 	LimitWindow bool
@@ -557,6 +558,7 @@ func (e *eval) step(i int, op *Op, res *Result) {
 		lo, hi := sizeRange(v, e.o.EscapeHTML)
 		res.TotLo += lo
 		res.TotHi += hi
+		res.CopyTotals = append(res.CopyTotals, [2]int64{res.TotLo, res.TotHi})
 		if e.o.Limit > 0 && res.TotHi > e.o.Limit {
 			if res.TotLo > e.o.Limit {
 				// would the add have failed anyway? then either class is fine
